@@ -6,7 +6,10 @@ PATCH=$(readlink -f "$1"); shift
 cd "$(dirname "$0")/.."
 if [ -n "$(git -C /repo status --porcelain --untracked-files=no)" ]; then echo "/repo is not clean"; exit 2; fi
 git -C /repo apply "$PATCH" || { echo "patch does not apply"; exit 2; }
-trap 'git -C /repo checkout -- . ; git -C /repo clean -fdq -- netconf junos-agent lib cli >/dev/null 2>&1' EXIT INT TERM
+# the evidence files committed under evidence/ must describe runs against /repo itself: keep them
+# aside while the patched tree is checked and put them back afterwards
+mkdir -p work/evidence.keep && cp -f evidence/*.json work/evidence.keep/ 2>/dev/null
+trap 'git -C /repo checkout -- . ; git -C /repo clean -fdq -- netconf junos-agent lib cli >/dev/null 2>&1; cp -f work/evidence.keep/*.json evidence/ 2>/dev/null' EXIT INT TERM
 if [ "${TESTS:-0}" = 1 ]; then
   (cd /repo && cargo test --workspace --no-fail-fast --offline 2>&1 | grep -E "^test result" | awk '{p+=$4; f+=$6} END {print "baseline tests on patched tree: passed=" p " failed=" f}')
 fi
